@@ -2,7 +2,12 @@ package rules
 
 import (
 	"fmt"
+	"go/constant"
+	"go/token"
+	"go/types"
+	"sort"
 	"strings"
+	"sync"
 
 	"golang.org/x/tools/go/ssa"
 
@@ -12,7 +17,7 @@ import (
 func init() {
 	Register(&Prop{
 		ID:   "C07",
-		Expl: "Decides on the maker tables and the SSA of the broadcast path: (R1) from every state reachable after a successful opening broadcast only claimed-by-preimage/coop/CSV terminals are reachable (never the cancelled state); (R2) after the wallet call that broadcasts has succeeded there is no failure exit — in the broadcast action (its record fields are assigned on every success path) and inside every CreateOpeningTransaction / CreateAndBroadcastTransaction implementation (no error return after the broadcast primitive except the verdict of an output locator); (R3) every post-broadcast waiting state arms the CSV watch on the announced (txid, vout), accepts the CSV event, and that event leads to a CSV-claim action whose only failure exit is a retry self-loop; the CSV event is injected by the registered CSV callback; (R4) no post-broadcast state is FailOnrecover and the broadcast call is guarded by the persisted record; (R5) a failing cooperative claim falls back to a CSV-armed waiting state; (R6) whether anything durable is written between the state transition and the broadcast action.",
+		Expl: "Decides on the maker tables and the SSA of the broadcast path: (R1) from every state reachable after a successful opening broadcast only claimed-by-preimage/coop/CSV terminals are reachable (never the cancelled state); (R2) after the wallet call that broadcasts has succeeded there is no failure exit — in the broadcast action and the helpers between it and the wallet call (its record fields are assigned on every success path) and inside every CreateOpeningTransaction / CreateAndBroadcastTransaction implementation incl. in-module wrappers around the broadcast primitive (no error return after the broadcast primitive except the verdict of an output locator); (R3) every post-broadcast waiting state arms the CSV watch on the announced (txid, vout), accepts the CSV event, and that event leads to a CSV-claim action whose only failure exit is a retry self-loop; the CSV event is injected by the registered CSV callback; (R4) no post-broadcast state is FailOnrecover and the broadcast call is guarded by the persisted record; (R5) a failing cooperative claim falls back to a CSV-armed waiting state; (R6) whether anything durable is written between the state transition and the broadcast action.",
 		NotD: "That the refund transaction confirms; wallet and chain behaviour; that watchers call back truthfully (C20).",
 		Run:  runC07,
 	})
@@ -44,7 +49,7 @@ func c07IsLocator(name string) bool {
 
 func runC07(c *an.Check) {
 	c.Rule("C07.R1", "maker tables: after a successful broadcast only claimed terminals (preimage/coop/csv) are reachable")
-	c.Rule("C07.R2", "no failure exit after the broadcast succeeded (action and wallet implementations); record fields assigned on every success path")
+	c.Rule("C07.R2", "no failure exit after the broadcast succeeded (action, its helpers and wallet implementations); record fields assigned on every success path")
 	c.Rule("C07.R3", "every post-broadcast waiting state arms the CSV watch on the announced outpoint, accepts the CSV event, which leads to the CSV claim whose failures only retry")
 	c.Rule("C07.R4", "post-broadcast states are not FailOnrecover; broadcast call guarded by OpeningTxBroadcasted == nil")
 	c.Rule("C07.R5", "a failing cooperative claim returns to a CSV-armed waiting state")
@@ -62,6 +67,7 @@ func runC07(c *an.Check) {
 		return
 	}
 	srcs := eventSources(c)
+	idx := c07BuildCallIdx(w)
 
 	// events injected by the lightning payment callback
 	lnEvents := map[string]bool{}
@@ -77,8 +83,10 @@ func runC07(c *an.Check) {
 			csvEvents[e] = true
 		}
 	}
+	delete(lnEvents, "?")
+	delete(csvEvents, "?")
 	c.AtLeast("C07.R3", "registered CSV callbacks", len(csvCbs), 1)
-	c.AtLeast("C07.R1", "events injected by the payment callback", len(lnEvents), 2)
+	lnOK := c.AtLeast("C07.R1", "events injected by the payment callback", len(lnEvents), 2)
 
 	for _, t := range mk {
 		bs := t.statesWith(fxOpenTx)
@@ -86,7 +94,7 @@ func runC07(c *an.Check) {
 			be := t.T.States[b]
 			tgt, ok := be.Events[evSucceeded]
 			if !ok {
-				c.Bad("C07.R1", t.key(b), t.pos(c, b), "broadcast state has no success edge")
+				c.Unknown("C07.R1", t.key(b), t.pos(c, b), "the broadcast state has no "+evSucceeded+" edge: the state entered after a successful broadcast cannot be identified")
 				continue
 			}
 			post := t.T.Reach(tgt)
@@ -112,6 +120,10 @@ func runC07(c *an.Check) {
 				}
 				e := t.T.States[s]
 				if e.Terminal() {
+					if !allowed[s] && (!lnOK || len(allowed) == 0) {
+						c.Unknown("C07.R1", t.key(s)+" terminal-after-broadcast", t.pos(c, s), "the claimed terminal states cannot be identified (payment-callback events or spend effects did not resolve)")
+						continue
+					}
 					c.Decide(allowed[s], "C07.R1", t.key(s)+" terminal-after-broadcast", t.pos(c, s),
 						"terminal is a claimed state", "a non-claimed terminal state is reachable after the opening transaction was broadcast: "+strings.Join(t.T.FindPath(tgt, s), " ; "))
 					continue
@@ -121,41 +133,19 @@ func runC07(c *an.Check) {
 				ss := t.Sum[s]
 				// R3: waiting states
 				if ss.Events[evNoOp] {
-					arm := ss.Sites(fxWaitCsv)
-					if len(arm) == 0 {
-						c.Bad("C07.R3", t.key(s)+" arms-csv", t.pos(c, s), "post-broadcast waiting state does not register the CSV watch")
-					} else {
-						okArgs := true
-						detail := ""
-						for _, site := range arm {
-							args := site.Info.Instr.Common().Args
-							// invoke: args = swapID, txID, vout, startingHeight, csv, script
-							if len(args) < 6 {
-								okArgs = false
-								continue
-							}
-							tx := w.Sources(args[1], an.FlowOpts{})
-							vo := w.Sources(args[2], an.FlowOpts{})
-							if !tx.Has("field", "SwapData.OpeningTxBroadcasted>OpeningTxBroadcastedMessage.TxId") || len(tx.Leaves) != 1 {
-								okArgs = false
-								detail += " txid from " + strings.Join(tx.Names(), ",")
-							}
-							if !vo.Has("field", "SwapData.OpeningTxBroadcasted>OpeningTxBroadcastedMessage.ScriptOut") || len(vo.Leaves) != 1 {
-								okArgs = false
-								detail += " vout from " + strings.Join(vo.Names(), ",")
-							}
-						}
-						c.Decide(okArgs, "C07.R3", t.key(s)+" arms-csv", w.Pos(arm[0].Info.Instr.Pos()), "CSV watch registered on the persisted announcement's (txid, vout)", "CSV watch is not registered on the announced outpoint:"+detail)
-					}
+					c07ArmsCsv(c, t, s)
 					var csvEv string
-					for ev := range csvEvents {
+					for _, ev := range sortedKeys(csvEvents) {
 						if _, ok := e.Events[ev]; ok {
 							csvEv = ev
 						}
 					}
-					if csvEv == "" {
+					switch {
+					case csvEv == "" && len(csvEvents) == 0:
+						c.Unknown("C07.R3", t.key(s)+" accepts-csv", t.pos(c, s), "the events injected by the CSV callback could not be resolved")
+					case csvEv == "":
 						c.Bad("C07.R3", t.key(s)+" accepts-csv", t.pos(c, s), fmt.Sprintf("post-broadcast waiting state accepts none of the events the CSV callback injects %v", sortedKeys(csvEvents)))
-					} else {
+					default:
 						nx := e.Events[csvEv]
 						ns := t.Sum[nx]
 						good := ns.HasEffect(fxCsvSpend)
@@ -163,7 +153,7 @@ func runC07(c *an.Check) {
 						if !good {
 							why = "target " + nx + " does not build the CSV spend"
 						}
-						for ev := range ns.Events {
+						for _, ev := range sortedKeys(ns.Events) {
 							switch ev {
 							case evSucceeded:
 							case evRetry:
@@ -176,11 +166,14 @@ func runC07(c *an.Check) {
 								why += " CSV-claim action may return " + ev
 							}
 						}
-						if ns.Unknown {
-							good = false
-							why += " (unresolved return value)"
+						switch {
+						case !good:
+							c.Bad("C07.R3", t.edgeKey(s, csvEv), w.Pos(e.EventPos[csvEv]), why)
+						case ns.Unknown:
+							c.Unknown("C07.R3", t.edgeKey(s, csvEv), w.Pos(e.EventPos[csvEv]), "a value returned by the CSV-claim action cannot be resolved to an event constant")
+						default:
+							c.OK("C07.R3", t.edgeKey(s, csvEv), w.Pos(e.EventPos[csvEv]), "CSV event leads to the CSV claim whose only failure exit is a retry self-loop")
 						}
-						c.Decide(good, "C07.R3", t.edgeKey(s, csvEv), w.Pos(e.EventPos[csvEv]), "CSV event leads to the CSV claim whose only failure exit is a retry self-loop", why)
 					}
 				}
 				// R5
@@ -193,116 +186,118 @@ func runC07(c *an.Check) {
 		}
 	}
 
-	// R2 + R4 in the code of the broadcast action(s)
-	nAct := 0
-	for _, fn := range prodFuncs(w) {
-		if w.FnRel(fn) != "swap" || isDummy(w, fn) {
-			continue
-		}
-		for _, ci := range callsNamed(w, fn, fxOpenTx) {
-			call, ok := ci.(*ssa.Call)
-			if !ok {
-				continue
-			}
-			nAct++
-			name := w.FuncName(fn)
-			// R4 guard
-			facts := w.FactsDominating(call)
-			c.Decide(an.AnyFact(facts, func(f an.Fact) bool { return an.EqIs(f, "==", "SwapData.OpeningTxBroadcasted", "nil") }),
-				"C07.R4", name+" broadcast-guard", w.Pos(call.Pos()), "broadcast is skipped when the record already holds an announcement",
-				"CreateOpeningTransaction is not guarded by `OpeningTxBroadcasted == nil`: a re-execution after restart broadcasts again. Facts: "+an.DescribeFacts(facts))
-			imp := impureCallsIn(w, fn, alreadyDoneRegion(w, fn, "SwapData.OpeningTxBroadcasted"))
-			c.Decide(len(imp) == 0, "C07.R4", name+" already-broadcast path", w.Pos(call.Pos()),
-				"a record that already holds the announcement succeeds without consulting outside services",
-				"on re-execution with the opening transaction already recorded (restart between the broadcast action and the next state) the action still calls "+strings.Join(imp, "; ")+" before it returns: a failure there cancels the swap although the funds are locked")
-			okE, _ := an.OkEdges(call)
-			if len(okE) == 0 {
-				c.Unknown("C07.R2", name+" after-broadcast", w.Pos(call.Pos()), "error result of CreateOpeningTransaction is not tested")
-				continue
-			}
-			var start []*ssa.BasicBlock
-			for _, e := range okE {
-				start = append(start, e.To())
-			}
-			reach := an.ReachBlocks(start, nil, nil)
-			evs := returnEventsFrom(w, fn, reach)
-			for ev, rets := range evs {
-				for _, r := range rets {
-					if ev == evSucceeded {
-						// record assigned on this path
-						for _, fld := range []string{"SwapData.OpeningTxBroadcasted", "SwapData.OpeningTxHex"} {
-							sts := storesTo(fn, fld)
-							assigned := len(sts) > 0 && !pathAvoiding(call, r, sts)
-							c.Decide(assigned, "C07.R2", name+" records "+fld, w.Pos(r.Pos()), "assigned on every success path after the broadcast", "a success path after the broadcast does not assign "+fld)
-						}
-						continue
+	// R2 + R4 in the code of the broadcast action(s): every Execute whose summary
+	// reaches CreateOpeningTransaction, along every call chain to it
+	type bUse struct {
+		in    ssa.CallInstruction
+		roots map[*ssa.Function]bool
+	}
+	bUses := map[ssa.CallInstruction]*bUse{}
+	bStates := map[string]bool{}
+	for _, t := range ts {
+		for _, s := range t.T.Order {
+			for _, ex := range t.Sum[s].Execs {
+				if isDummy(w, ex) {
+					continue
+				}
+				for _, ef := range w.Summary(ex).Sites(fxOpenTx) {
+					u := bUses[ef.Info.Instr]
+					if u == nil {
+						u = &bUse{in: ef.Info.Instr, roots: map[*ssa.Function]bool{}}
+						bUses[ef.Info.Instr] = u
 					}
-					// failure exit after broadcast: allowed only as the fail edge of the marshal helper
-					cause := c07FailureCause(w, fn, r)
-					exempt := strings.Contains(cause, "func:swap.MarshalPeerswapMessage")
-					cons := name + " failure-after-broadcast via " + cause
-					if exempt {
-						c.OK("C07.R2", cons, w.Pos(r.Pos()), "marshalling a message of strings/integers/*SwapId cannot fail (frozen exemption)")
-					} else {
-						c.Bad("C07.R2", cons, w.Pos(r.Pos()),
-							fmt.Sprintf("after CreateOpeningTransaction succeeded (funds are on their way to the chain) the action can still return %s (table: cancel) when %s fails; the record fields are never set and the locked output is abandoned", ev, cause))
-					}
+					u.roots[ex] = true
+					bStates[t.key(s)] = true
 				}
 			}
 		}
 	}
-	c.AtLeast("C07.R2", "broadcast actions", nAct, 1)
+	for _, fn := range prodFuncs(w) {
+		if w.FnRel(fn) != "swap" || isDummy(w, fn) {
+			continue
+		}
+		for _, call := range callsNamed(w, fn, fxOpenTx) {
+			if bUses[call] == nil {
+				c.Unknown("C07.R2", w.FuncName(fn)+" after-broadcast", w.Pos(call.Pos()),
+					"CreateOpeningTransaction is called by code that no action of a state table reaches synchronously: what happens after this broadcast is not covered by the rule")
+			}
+		}
+	}
+	var uses []*bUse
+	for _, u := range bUses {
+		uses = append(uses, u)
+	}
+	sort.Slice(uses, func(i, j int) bool { return uses[i].in.Pos() < uses[j].in.Pos() })
+	for _, u := range uses {
+		var roots []*ssa.Function
+		for r := range u.roots {
+			roots = append(roots, r)
+		}
+		sort.Slice(roots, func(i, j int) bool { return w.FuncName(roots[i]) < w.FuncName(roots[j]) })
+		for _, root := range roots {
+			name := w.FuncName(root)
+			pos := w.Pos(u.in.Pos())
+			chains := c07Chains(w, idx, root, u.in, false)
+			if len(chains) == 0 {
+				c.Unknown("C07.R2", name+" after-broadcast", pos, "the static call chain from the action to CreateOpeningTransaction cannot be reconstructed")
+				continue
+			}
+			// R4 guard
+			var impBad, impUnk []string
+			var facts []an.Fact
+			unguarded, opaque := "", ""
+			for _, ch := range chains {
+				g := c07ChainGuard(w, ch, "SwapData.OpeningTxBroadcasted", false, false)
+				facts = append(facts, g.facts...)
+				switch {
+				case g.field != "":
+					impBad = append(impBad, g.impure...)
+					impUnk = append(impUnk, g.impureAfter...)
+				case g.opaque != "":
+					opaque = g.opaque
+				default:
+					unguarded = c07ChainString(w, ch)
+				}
+			}
+			switch {
+			case unguarded != "":
+				c.Bad("C07.R4", name+" broadcast-guard", pos,
+					"CreateOpeningTransaction is not guarded by `OpeningTxBroadcasted == nil` with an already-broadcast branch that only succeeds (call chain "+unguarded+"): a re-execution after restart broadcasts again. Facts: "+an.DescribeFacts(facts))
+			case opaque != "":
+				c.Unknown("C07.R4", name+" broadcast-guard", pos, "cannot decide whether the broadcast is guarded: "+opaque)
+			default:
+				c.OK("C07.R4", name+" broadcast-guard", pos, "broadcast is skipped when the record already holds an announcement")
+				switch {
+				case len(impBad) > 0:
+					c.Bad("C07.R4", name+" already-broadcast path", pos,
+						"on re-execution with the opening transaction already recorded (restart between the broadcast action and the next state) the action still calls "+strings.Join(c07Uniq(impBad), "; ")+" before it returns: a failure there cancels the swap although the funds are locked")
+				case len(impUnk) > 0:
+					c.Unknown("C07.R4", name+" already-broadcast path", pos,
+						"the guard sits inside a helper; after it returns the caller calls outside services ("+strings.Join(c07Uniq(impUnk), "; ")+") and the rule cannot separate the first execution from the re-execution there")
+				default:
+					c.OK("C07.R4", name+" already-broadcast path", pos, "a record that already holds the announcement succeeds without consulting outside services")
+				}
+			}
+			// R2: nothing fails after the broadcast, the record is filled
+			for _, ch := range chains {
+				c07AfterEffect(c, ch, name, c07ActionMode)
+			}
+		}
+	}
+	c.AtLeast("C07.R2", "states whose action broadcasts the opening transaction", len(bStates), 2)
 
 	// R2 inside the wallet implementations
 	impls := append(implementers(w, "swap", "Wallet", "CreateOpeningTransaction"), implementers(w, "wallet", "Wallet", "CreateAndBroadcastTransaction")...)
 	c.AtLeast("C07.R2", "CreateOpeningTransaction/CreateAndBroadcastTransaction implementations", len(impls), 5)
 	for _, fn := range impls {
 		name := w.FuncName(fn)
-		prims := callsMatching(w, fn, func(ci an.CallInfo) bool { _, ok := c07BroadcastPrimitives[ci.Name]; return ok })
-		if len(prims) == 0 {
-			c.Unknown("C07.R2", name+" broadcast-primitive", w.Pos(fn.Pos()), "no known broadcast primitive is called here; the frozen table in c07.go needs a confirmed entry for this back-end")
+		chains := c07PrimitiveChains(w, idx, fn)
+		if len(chains) == 0 {
+			c.Unknown("C07.R2", name+" broadcast-primitive", w.Pos(fn.Pos()), "no known broadcast primitive is reached from here (directly or through in-module wrappers); the frozen table in c07.go needs a confirmed entry for this back-end")
 			continue
 		}
-		for _, pc := range prims {
-			call, ok := pc.(*ssa.Call)
-			if !ok {
-				continue
-			}
-			okE, _ := an.OkEdges(call)
-			var start []*ssa.BasicBlock
-			for _, e := range okE {
-				start = append(start, e.To())
-			}
-			if len(start) == 0 {
-				c.Unknown("C07.R2", name+" after-primitive", w.Pos(call.Pos()), "error of the broadcast primitive is not tested")
-				continue
-			}
-			reach := an.ReachBlocks(start, nil, nil)
-			clean := true
-			for _, r := range an.Returns(fn) {
-				if !reach[r.Block()] || len(r.Results) == 0 {
-					continue
-				}
-				errV := r.Results[len(r.Results)-1]
-				if !an.IsErrorType(errV.Type()) || an.IsNilConst(errV) {
-					continue
-				}
-				if src := w.Sources(errV, an.FlowOpts{}); src.OnlyFrom(func(s an.Src) bool { return s.Kind == "zero" && s.Name == "nil" }) {
-					continue // named result that holds nil on this path
-				}
-				cause := c07FailureCause(w, fn, r)
-				cons := name + " error-after-broadcast via " + cause
-				if c07IsLocator(cause) {
-					c.OK("C07.R2", cons, w.Pos(r.Pos()), "the only error after the broadcast is an output-locator verdict")
-				} else {
-					clean = false
-					c.Bad("C07.R2", cons, w.Pos(r.Pos()),
-						"after the broadcast primitive "+strings.TrimPrefix(w.Info(call).Name, "func:")+" succeeded this function still returns an error when "+cause+" fails: the caller treats the broadcast as failed and cancels the swap while the funds are locked")
-				}
-			}
-			if clean {
-				c.OK("C07.R2", name+" after-primitive", w.Pos(call.Pos()), "no error return is reachable after the broadcast primitive succeeded")
-			}
+		for _, ch := range chains {
+			c07AfterEffect(c, ch, name, c07WalletMode)
 		}
 	}
 
@@ -312,31 +307,424 @@ func runC07(c *an.Check) {
 		c.Anchor("(*SwapStateMachine).SendEvent does not resolve")
 		return
 	}
-	execs := callsNamed(w, se, fxActionExecute)
-	trans := callsNamed(w, se, "func:(*swap.SwapStateMachine).setState")
-	upd := callsNamed(w, se, fxStoreUpdate)
-	if len(execs) == 0 || len(trans) == 0 || len(upd) == 0 {
-		c.Anchor("SendEvent: Action.Execute / setState / Store.UpdateData call not found")
+	c07WriteAhead(c, se)
+}
+
+// c07ArmsCsv: R3, the CSV watch of a waiting state is registered on the
+// persisted announcement's outpoint.
+func c07ArmsCsv(c *an.Check, t *TI, s string) {
+	w := c.W
+	ss := t.Sum[s]
+	arm := ss.Sites(fxWaitCsv)
+	cons := t.key(s) + " arms-csv"
+	if len(arm) == 0 {
+		if ss.HasEffect("go:" + fxWaitCsv) {
+			c.Unknown("C07.R3", cons, t.pos(c, s), "the CSV watch is registered from a goroutine: not decided")
+			return
+		}
+		c.Bad("C07.R3", cons, t.pos(c, s), "post-broadcast waiting state does not register the CSV watch")
 		return
 	}
-	var updI []ssa.Instruction
-	for _, u := range upd {
-		updI = append(updI, u)
+	bad, unk := "", ""
+	resolve := func(v ssa.Value, want string, what string) {
+		src := w.Sources(v, an.FlowOpts{})
+		if src.HasPrefix("param", "") {
+			src = w.Sources(v, an.FlowOpts{IntoCallers: true})
+		}
+		switch {
+		case len(src.Leaves) == 1 && src.Has("field", want):
+		case src.HasPrefix("param", "") || src.HasPrefix("unknown", "") || src.HasPrefix("freevar", "") || len(src.Leaves) == 0:
+			unk += " " + what + " from " + strings.Join(src.Names(), ",")
+		case src.Has("field", want) && len(c07Uniq(src.Names())) == 1:
+		default:
+			bad += " " + what + " from " + strings.Join(src.Names(), ",")
+		}
 	}
-	for _, ex := range execs {
-		for _, tr := range trans {
-			gap := pathAvoiding(tr, ex, updI)
-			c.Decide(!gap, "C07.R6", "(*SwapStateMachine).SendEvent transition->Execute of the broadcast state", w.Pos(ex.Pos()),
-				"the new state is persisted before its action runs",
-				"SendEvent moves to the next state and runs its action without a store write in between (the write precedes the transition): a crash between the wallet broadcast inside CreateAndBroadcastOpeningTransaction and the post-action write leaves a record that does not mention the transaction, and recovery never arms the CSV refund")
+	for _, site := range arm {
+		args := site.Info.Instr.Common().Args
+		// invoke: args = swapID, txID, vout, startingHeight, csv, script
+		if len(args) < 6 {
+			unk += " unexpected argument count"
+			continue
+		}
+		resolve(args[1], "SwapData.OpeningTxBroadcasted>OpeningTxBroadcastedMessage.TxId", "txid")
+		resolve(args[2], "SwapData.OpeningTxBroadcasted>OpeningTxBroadcastedMessage.ScriptOut", "vout")
+	}
+	pos := w.Pos(arm[0].Info.Instr.Pos())
+	switch {
+	case bad != "":
+		c.Bad("C07.R3", cons, pos, "CSV watch is not registered on the announced outpoint:"+bad)
+	case unk != "":
+		c.Unknown("C07.R3", cons, pos, "origin of the watched outpoint cannot be resolved:"+unk)
+	default:
+		c.OK("C07.R3", cons, pos, "CSV watch registered on the persisted announcement's (txid, vout)")
+	}
+}
+
+// ---- R2: what can happen after the effect succeeded ----------------------------------------
+
+type c07Mode int
+
+const (
+	c07ActionMode c07Mode = iota // root is an action: failure events, record fields
+	c07WalletMode                // root is a wallet implementation: error returns, locator exemption
+)
+
+// c07AfterEffect walks a call chain root -> … -> effect bottom-up. At every
+// level it inspects the returns reachable after the call of that level
+// succeeded: an error return there (helper / wallet function) or a failure
+// event (action) is a failure exit after the broadcast, unless its cause is
+// exempt; success returns of the action must have the record fields assigned.
+func c07AfterEffect(c *an.Check, ch []c07Step, name string, mode c07Mode) {
+	w := c.W
+	recordFields := []string{"SwapData.OpeningTxBroadcasted", "SwapData.OpeningTxHex"}
+	recordedBelow := map[string]bool{}
+	for k := len(ch) - 1; k >= 0; k-- {
+		st := ch[k]
+		fn := st.Fn
+		call, ok := st.Call.(*ssa.Call)
+		if !ok {
+			c.Unknown("C07.R2", name+" after-broadcast", w.Pos(st.Call.Pos()), "the broadcast is reached through a go/defer statement in "+w.FuncName(fn))
+			return
+		}
+		prim := strings.TrimPrefix(w.Info(ch[len(ch)-1].Call).Name, "func:")
+		var region map[*ssa.BasicBlock]bool
+		hasErr := an.ErrResultIndex(call) >= 0
+		okE, _ := an.OkEdges(call)
+		switch {
+		case hasErr && len(okE) > 0:
+			var start []*ssa.BasicBlock
+			for _, e := range okE {
+				start = append(start, e.To())
+			}
+			region = an.ReachBlocks(start, nil, nil)
+		case hasErr && c07PassThrough(call):
+			// `return f(...)`: nothing runs here after the call; judged one level up
+			continue
+		case hasErr:
+			what := " after-primitive"
+			if mode == c07ActionMode {
+				what = " after-broadcast"
+			}
+			c.Unknown("C07.R2", name+what, w.Pos(call.Pos()), "error result of "+strings.TrimPrefix(w.Info(call).Name, "func:")+" is not tested in "+w.FuncName(fn))
+			return
+		default:
+			region = an.ReachFromInstr(call)
+			region[call.Block()] = true
+		}
+		isAction := mode == c07ActionMode && k == 0
+		clean := true
+		if isAction {
+			for _, r := range an.Returns(fn) {
+				if !region[r.Block()] {
+					continue
+				}
+				for _, res := range r.Results {
+					n, ok := res.Type().(*types.Named)
+					if !ok || n.Obj().Name() != "EventType" {
+						continue
+					}
+					for _, cs := range c07ValueCases(res, r) {
+						if !region[cs.blk] {
+							continue
+						}
+						for _, ev := range eventValues(w, cs.v) {
+							switch ev {
+							case evSucceeded:
+								for _, fld := range recordFields {
+									assigned := recordedBelow[fld] || c07Recorded(w, fn, call, cs.at, fld)
+									if !assigned && (c07MaybeRecorded(w, fn, call, cs.at, fld) || c07BelowMayStore(w, ch, fld)) {
+										c.Unknown("C07.R2", name+" records "+fld, w.Pos(r.Pos()), "the field is assigned by a helper on some of its paths only; whether every success path after the broadcast assigns it is not decided")
+										continue
+									}
+									c.Decide(assigned, "C07.R2", name+" records "+fld, w.Pos(r.Pos()), "assigned on every success path after the broadcast", "a success path after the broadcast does not assign "+fld)
+								}
+							case "?", "NEXT":
+								c.Unknown("C07.R2", name+" after-broadcast", w.Pos(r.Pos()), "an event returned after the broadcast cannot be resolved to a constant")
+							default:
+								cause, ccall := c07FailureCause(w, fn, cs.blk)
+								cons := name + " failure-after-broadcast via " + cause
+								if why := c07MarshalOnly(w, ccall, 0); why != "" {
+									c.OK("C07.R2", cons, w.Pos(r.Pos()), why)
+								} else {
+									c.Bad("C07.R2", cons, w.Pos(r.Pos()),
+										fmt.Sprintf("after CreateOpeningTransaction succeeded (funds are on their way to the chain) the action can still return %s (table: cancel) when %s fails; the record fields are never set and the locked output is abandoned", ev, cause))
+								}
+							}
+						}
+					}
+				}
+			}
+			continue
+		}
+		// helper of the action, or wallet-side function: error returns after the call succeeded
+		for _, r := range an.Returns(fn) {
+			if !region[r.Block()] || len(r.Results) == 0 {
+				continue
+			}
+			errV := r.Results[len(r.Results)-1]
+			if !an.IsErrorType(errV.Type()) {
+				continue
+			}
+			for _, cs := range c07ValueCases(errV, r) {
+				if !region[cs.blk] || c07KnownNil(w, cs.v, cs.blk) {
+					continue
+				}
+				cause, ccall := c07FailureCause(w, fn, cs.blk)
+				var cons, okWhy, badWhy string
+				if mode == c07WalletMode {
+					cons = name + " error-after-broadcast via " + cause
+					if k > 0 {
+						cons = name + " error-after-broadcast in " + w.FuncName(fn) + " via " + cause
+					}
+					if c07IsLocator(cause) {
+						okWhy = "the only error after the broadcast is an output-locator verdict"
+					}
+					badWhy = "after the broadcast primitive " + prim + " succeeded this function still returns an error when " + cause + " fails: the caller treats the broadcast as failed and cancels the swap while the funds are locked"
+				} else {
+					cons = name + " failure-after-broadcast in " + w.FuncName(fn) + " via " + cause
+					okWhy = c07MarshalOnly(w, ccall, 0)
+					badWhy = "after CreateOpeningTransaction succeeded the helper " + w.FuncName(fn) + " still returns an error when " + cause + " fails; the action fails (table: cancel) and the locked output is abandoned"
+				}
+				switch {
+				case okWhy != "":
+					c.OK("C07.R2", cons, w.Pos(r.Pos()), okWhy)
+				case ccall == nil && !c07SurelyError(cs.v):
+					clean = false
+					c.Unknown("C07.R2", cons, w.Pos(r.Pos()), "an error value returned after the broadcast succeeded cannot be shown to be nil, and no failing call that leads to this return could be identified")
+				default:
+					clean = false
+					c.Bad("C07.R2", cons, w.Pos(r.Pos()), badWhy)
+				}
+			}
+		}
+		if mode == c07WalletMode && clean && k == 0 {
+			c.OK("C07.R2", name+" after-primitive", w.Pos(call.Pos()), "no error return is reachable after the broadcast primitive succeeded")
+		}
+		// record fields assigned by this level on all its success returns?
+		if mode == c07ActionMode {
+			for _, fld := range recordFields {
+				if recordedBelow[fld] {
+					continue
+				}
+				all, any := true, false
+				for _, r := range an.Returns(fn) {
+					if !region[r.Block()] {
+						continue
+					}
+					if len(r.Results) > 0 {
+						errV := r.Results[len(r.Results)-1]
+						if an.IsErrorType(errV.Type()) && !an.IsNilConst(errV) && !c07KnownNil(w, errV, r.Block()) {
+							continue // failing return
+						}
+					}
+					any = true
+					if !c07Recorded(w, fn, call, r, fld) {
+						all = false
+					}
+				}
+				if any && all {
+					recordedBelow[fld] = true
+				}
+			}
 		}
 	}
 }
 
-// c07FailureCause names the call whose failing edge leads to return r (the
-// nearest dominating error test), for diagnostics and for the marshal exemption.
-func c07FailureCause(w *an.World, fn *ssa.Function, r *ssa.Return) string {
-	best := ""
+// c07BelowMayStore: a function below the root on the chain stores fld.
+func c07BelowMayStore(w *an.World, ch []c07Step, fld string) bool {
+	for _, st := range ch[1:] {
+		if len(storesTo(st.Fn, fld)) > 0 {
+			return true
+		}
+	}
+	return false
+}
+
+// c07PassThrough: the call's results are returned as they are (`return f(…)`).
+func c07PassThrough(call *ssa.Call) bool {
+	refs := call.Referrers()
+	if refs == nil || len(*refs) == 0 {
+		return false
+	}
+	for _, r := range *refs {
+		switch x := r.(type) {
+		case *ssa.Return:
+		case *ssa.Extract:
+			if x.Referrers() == nil {
+				return false
+			}
+			for _, rr := range *x.Referrers() {
+				if _, ok := rr.(*ssa.Return); !ok {
+					if _, dbg := rr.(*ssa.DebugRef); !dbg {
+						return false
+					}
+				}
+			}
+		case *ssa.DebugRef:
+		default:
+			return false
+		}
+	}
+	return true
+}
+
+type c07Case struct {
+	v   ssa.Value
+	blk *ssa.BasicBlock // block whose dominating facts hold when v is returned
+	at  ssa.Instruction // an instruction executed on that path (for path queries)
+}
+
+// c07ValueCases expands a returned value into (incoming value, block) pairs:
+// phi edges with their predecessor blocks, defer-spilled results with the
+// stores that reach the load.
+func c07ValueCases(v ssa.Value, r *ssa.Return) []c07Case {
+	var out []c07Case
+	seen := map[ssa.Value]bool{}
+	var rec func(v ssa.Value, blk *ssa.BasicBlock, at ssa.Instruction, depth int)
+	rec = func(v ssa.Value, blk *ssa.BasicBlock, at ssa.Instruction, depth int) {
+		if depth > 6 {
+			out = append(out, c07Case{v, blk, at})
+			return
+		}
+		switch x := v.(type) {
+		case *ssa.Phi:
+			if seen[x] {
+				return
+			}
+			seen[x] = true
+			for i, e := range x.Edges {
+				pred := x.Block().Preds[i]
+				rec(e, pred, pred.Instrs[len(pred.Instrs)-1], depth+1)
+			}
+			return
+		case *ssa.UnOp:
+			if al, ok := x.X.(*ssa.Alloc); ok && x.Op == token.MUL {
+				stores, fromEntry := an.StoresReaching(x, al)
+				if len(stores) > 0 && !fromEntry {
+					for _, s := range stores {
+						rec(s.Val, s.Block(), s, depth+1)
+					}
+					return
+				}
+			}
+		}
+		out = append(out, c07Case{v, blk, at})
+	}
+	rec(v, r.Block(), r, 0)
+	return out
+}
+
+// c07KnownNil: the error value is nil whenever blk executes.
+func c07KnownNil(w *an.World, v ssa.Value, blk *ssa.BasicBlock) bool {
+	if an.IsNilConst(v) {
+		return true
+	}
+	if src := w.Sources(v, an.FlowOpts{}); src.OnlyFrom(func(s an.Src) bool { return s.Kind == "zero" && s.Name == "nil" }) {
+		return true // named result that holds nil on this path
+	}
+	facts := w.FactsDominatingBlock(blk)
+	// the block itself may be the target of the deciding edge
+	for _, f := range w.Facts(blk.Parent()) {
+		if f.Edge.To() == blk && len(blk.Preds) == 1 {
+			facts = append(facts, f)
+		}
+	}
+	for _, f := range facts {
+		if !f.NonNum || f.Rel != "==" {
+			continue
+		}
+		if (f.LV == v && f.RV != nil && an.IsNilConst(f.RV)) || (f.RV == v && f.LV != nil && an.IsNilConst(f.LV)) {
+			return true
+		}
+	}
+	return false
+}
+
+// c07SurelyError: the value is a freshly constructed error.
+func c07SurelyError(v ssa.Value) bool {
+	switch x := v.(type) {
+	case *ssa.MakeInterface:
+		return true
+	case *ssa.Call:
+		if f := x.Common().StaticCallee(); f != nil && f.Pkg != nil {
+			switch f.Pkg.Pkg.Path() + "." + f.Name() {
+			case "errors.New", "fmt.Errorf":
+				return true
+			}
+		}
+	}
+	return false
+}
+
+// c07StoreLike: the instructions of fn that assign field fld: stores, and calls
+// of in-module functions that store it on every return.
+func c07StoreLike(w *an.World, fn *ssa.Function, fld string) []ssa.Instruction {
+	out := storesTo(fn, fld)
+	for _, call := range an.Calls(fn) {
+		g := call.Common().StaticCallee()
+		if g == nil || !w.InModule(g) || g.Blocks == nil || g == fn {
+			continue
+		}
+		sts := storesTo(g, fld)
+		if len(sts) == 0 {
+			continue
+		}
+		all := true
+		for _, r := range an.Returns(g) {
+			if len(r.Results) > 0 {
+				errV := r.Results[len(r.Results)-1]
+				if an.IsErrorType(errV.Type()) && !an.IsNilConst(errV) {
+					continue // failing return of the recorder
+				}
+			}
+			if !an.MustPassInstr(r, sts) {
+				all = false
+			}
+		}
+		if all {
+			out = append(out, call)
+		}
+	}
+	return out
+}
+
+// c07Recorded: every path from `from` to `to` in fn assigns fld.
+func c07Recorded(w *an.World, fn *ssa.Function, from ssa.Instruction, to ssa.Instruction, fld string) bool {
+	sts := c07StoreLike(w, fn, fld)
+	for _, s := range sts {
+		if s == to {
+			return true
+		}
+	}
+	return len(sts) > 0 && !pathAvoiding(from, to, sts)
+}
+
+// c07MaybeRecorded: as c07Recorded, also counting calls of in-module functions
+// that may (not must) assign fld somewhere below them.
+func c07MaybeRecorded(w *an.World, fn *ssa.Function, from ssa.Instruction, to ssa.Instruction, fld string) bool {
+	sts := c07StoreLike(w, fn, fld)
+	for _, call := range an.Calls(fn) {
+		if g := call.Common().StaticCallee(); g != nil && g != fn && w.InModule(g) && c07FnStores(w, g, fld) {
+			sts = append(sts, call)
+		}
+	}
+	for _, s := range sts {
+		if s == to {
+			return true
+		}
+	}
+	return len(sts) > 0 && !pathAvoiding(from, to, sts)
+}
+
+// c07FailureCause names the call whose failing edge leads to blk (the nearest
+// dominating error test), for diagnostics and for the exemptions.
+func c07FailureCause(w *an.World, fn *ssa.Function, blk *ssa.BasicBlock) (string, *ssa.Call) {
+	type cand struct {
+		call *ssa.Call
+		edge an.Edge
+	}
+	var cands []cand
 	for _, call := range an.Calls(fn) {
 		cv, ok := call.(*ssa.Call)
 		if !ok {
@@ -344,16 +732,724 @@ func c07FailureCause(w *an.World, fn *ssa.Function, r *ssa.Return) string {
 		}
 		_, fail := an.OkEdges(cv)
 		for _, e := range fail {
-			if e.To() == r.Block() || an.EdgeDominates(e, r.Block()) {
-				// prefer the latest (closest) call
-				if best == "" || cv.Pos() > 0 {
-					best = w.Info(cv).Name
-				}
+			if e.To() == blk || an.EdgeDominates(e, blk) {
+				cands = append(cands, cand{cv, e})
 			}
 		}
 	}
-	if best == "" {
-		return "an unidentified condition"
+	if len(cands) == 0 {
+		return "an unidentified condition", nil
 	}
-	return best
+	// the closest: the candidate whose edge is dominated by all the others
+	best := cands[0]
+	for _, cd := range cands[1:] {
+		if cd.edge.From == best.edge.From {
+			continue
+		}
+		if an.EdgeDominates(best.edge, cd.edge.From) {
+			best = cd
+		}
+	}
+	return w.Info(best.call).Name, best.call
 }
+
+// c07MarshalOnly: the failing call is MarshalPeerswapMessage, or an in-module
+// helper whose every non-nil error return is caused by such a call. Returns the
+// justification, "" when not exempt.
+func c07MarshalOnly(w *an.World, call *ssa.Call, depth int) string {
+	if call == nil || depth > 2 {
+		return ""
+	}
+	marshal := w.Func("swap", "MarshalPeerswapMessage")
+	g := call.Common().StaticCallee()
+	if g == nil || marshal == nil {
+		return ""
+	}
+	if g == marshal {
+		return "marshalling a message of strings/integers/*SwapId cannot fail (frozen exemption)"
+	}
+	if !w.InModule(g) || g.Blocks == nil {
+		return ""
+	}
+	n := 0
+	for _, r := range an.Returns(g) {
+		if len(r.Results) == 0 {
+			continue
+		}
+		errV := r.Results[len(r.Results)-1]
+		if !an.IsErrorType(errV.Type()) {
+			return "" // reports failure by other means
+		}
+		for _, cs := range c07ValueCases(errV, r) {
+			if c07KnownNil(w, cs.v, cs.blk) {
+				continue
+			}
+			_, cc := c07FailureCause(w, g, cs.blk)
+			if c07MarshalOnly(w, cc, depth+1) == "" {
+				return ""
+			}
+			n++
+		}
+	}
+	if n == 0 {
+		return "the helper " + w.FuncName(g) + " never returns an error"
+	}
+	return "the helper " + w.FuncName(g) + " fails only when MarshalPeerswapMessage fails, which cannot happen for a message of strings/integers/*SwapId (frozen exemption)"
+}
+
+// c07PrimitiveChains: the call chains from a wallet implementation to the
+// broadcast primitives it reaches, each cut at its first primitive call.
+func c07PrimitiveChains(w *an.World, idx *c07CallIdx, fn *ssa.Function) [][]c07Step {
+	var out [][]c07Step
+	seen := map[string]bool{}
+	isPrim := func(call ssa.CallInstruction) bool { _, ok := c07BroadcastPrimitives[w.Info(call).Name]; return ok }
+	add := func(ch []c07Step) {
+		for i, st := range ch {
+			if isPrim(st.Call) {
+				ch = ch[:i+1]
+				break
+			}
+		}
+		key := ""
+		for _, st := range ch {
+			key += fmt.Sprintf("%p/", st.Call)
+		}
+		if !seen[key] {
+			seen[key] = true
+			out = append(out, ch)
+		}
+	}
+	for _, call := range an.Calls(fn) {
+		if isPrim(call) {
+			add([]c07Step{{fn, call}})
+		}
+	}
+	for _, ef := range w.Summary(fn).Effects {
+		if _, ok := c07BroadcastPrimitives[ef.Name]; !ok || ef.In == fn {
+			continue
+		}
+		for _, ch := range c07Chains(w, idx, fn, ef.Info.Instr, false) {
+			add(ch)
+		}
+	}
+	return out
+}
+
+// ---- R6 ------------------------------------------------------------------------------------
+
+// c07WriteAhead looks, in SendEvent (or the helper that holds its transition
+// loop), for a store write between the state transition and Action.Execute. The
+// three anchors are found through effect summaries, so one-line wrappers around
+// Store.UpdateData, the state setters or the Execute call are transparent.
+func c07WriteAhead(c *an.Check, se *ssa.Function) {
+	w := c.W
+	const cons = "(*SwapStateMachine).SendEvent transition->Execute of the broadcast state"
+	scope := se
+	for depth := 0; depth < 3; depth++ {
+		var execs, trans, upd []ssa.Instruction
+		var both *ssa.Function
+		for _, b := range scope.Blocks {
+			for _, in := range b.Instrs {
+				if st, ok := in.(*ssa.Store); ok {
+					if fa, ok := st.Addr.(*ssa.FieldAddr); ok && an.FieldName(fa.X.Type(), fa.Field) == "SwapStateMachine.Current" {
+						trans = append(trans, in)
+					}
+					continue
+				}
+				call, ok := in.(ssa.CallInstruction)
+				if !ok {
+					continue
+				}
+				if _, isGo := call.(*ssa.Go); isGo {
+					continue
+				}
+				ci := w.Info(call)
+				isExec, isTrans, isUpd := ci.Name == fxActionExecute, false, ci.Name == fxStoreUpdate
+				if g := ci.Static; g != nil && g != se && g != scope && w.InModule(g) && g.Blocks != nil {
+					sum := w.Summary(g)
+					isExec = isExec || sum.HasEffect(fxActionExecute)
+					isUpd = isUpd || sum.HasEffect(fxStoreUpdate)
+					isTrans = c07FnStores(w, g, "SwapStateMachine.Current")
+				}
+				if isExec && isTrans {
+					both = ci.Static
+				}
+				if isExec {
+					execs = append(execs, in)
+				}
+				if isTrans {
+					trans = append(trans, in)
+				}
+				if isUpd {
+					upd = append(upd, in)
+				}
+			}
+		}
+		if both != nil {
+			scope = both // the transition and the action run inside one helper: look there
+			continue
+		}
+		if len(execs) == 0 || len(trans) == 0 {
+			break
+		}
+		if len(upd) == 0 && scope == se {
+			break
+		}
+		for _, ex := range execs {
+			gap := false
+			for _, tr := range trans {
+				if tr == ex {
+					continue
+				}
+				if pathAvoiding(tr, ex, upd) {
+					gap = true
+				}
+			}
+			c.Decide(!gap, "C07.R6", cons, w.Pos(ex.Pos()),
+				"the new state is persisted before its action runs",
+				"SendEvent moves to the next state and runs its action without a store write in between (the write precedes the transition): a crash between the wallet broadcast inside CreateAndBroadcastOpeningTransaction and the post-action write leaves a record that does not mention the transaction, and recovery never arms the CSV refund")
+		}
+		return
+	}
+	c.Anchor("SendEvent: Action.Execute / state transition / Store.UpdateData not found (directly or through in-module helpers)")
+}
+
+// ==== shared-begin: call-chain / guard helpers (the same code, up to the prefix, in each of this author's rule files) ====
+
+func c07Uniq(in []string) []string {
+	m := map[string]bool{}
+	for _, s := range in {
+		m[s] = true
+	}
+	return sortedKeys(m)
+}
+
+func c07ChainString(w *an.World, ch []c07Step) string {
+	var p []string
+	for _, st := range ch {
+		p = append(p, w.FuncName(st.Fn))
+	}
+	return strings.Join(p, " -> ")
+}
+
+type c07GuardResult struct {
+	field       string // guarding field, "" if none
+	opaque      string // why the chain could not be interpreted (then field == "")
+	facts       []an.Fact
+	impure      []string // outside-service calls that certainly lie on the already-done path
+	impureAfter []string // outside-service calls in callers after a guarded helper returned
+}
+
+// c07After: blocks that execute after call succeeded (after the call when its
+// error is not tested or it has none).
+func c07After(call ssa.CallInstruction) map[*ssa.BasicBlock]bool {
+	if cv, ok := call.(*ssa.Call); ok {
+		if okE, _ := an.OkEdges(cv); len(okE) > 0 {
+			var st []*ssa.BasicBlock
+			for _, e := range okE {
+				st = append(st, e.To())
+			}
+			return an.ReachBlocks(st, nil, nil)
+		}
+	}
+	after := an.ReachFromInstr(call)
+	after[call.Block()] = true
+	return after
+}
+
+// c07ChainGuard looks for a guard `SwapData.X is zero` that dominates one call
+// of the chain, with X assigned after the effect at that level or further down.
+//
+// only restricts the search to one field ("" = any persisted field);
+// needAssigned demands the assignment after the effect; allowNext accepts an
+// already-done branch that delegates to the next action of a wrapper.
+func c07ChainGuard(w *an.World, ch []c07Step, only string, needAssigned, allowNext bool) c07GuardResult {
+	var res c07GuardResult
+	for k, st := range ch {
+		facts := w.FactsDominating(st.Call)
+		res.facts = append(res.facts, facts...)
+		for _, f := range facts {
+			fld := c07ZeroFactField(w, f)
+			if fld == "" || (only != "" && fld != only) {
+				continue
+			}
+			// assigned after the effect: at this level after the call, or at a deeper level
+			assigned := false
+			for j := k; j < len(ch); j++ {
+				after := c07After(ch[j].Call)
+				for _, s := range storesTo(ch[j].Fn, fld) {
+					if after[s.Block()] {
+						assigned = true
+					}
+				}
+				// through a recording helper called after the effect
+				for _, call := range an.Calls(ch[j].Fn) {
+					if !after[call.Block()] || call == ch[j].Call {
+						continue
+					}
+					if g := call.Common().StaticCallee(); g != nil && w.InModule(g) && c07FnStores(w, g, fld) {
+						assigned = true
+					}
+				}
+			}
+			if !assigned && needAssigned {
+				continue
+			}
+			// the "already done" edge must not reach the guarded call nor return a failure
+			other := an.Edge{From: f.Edge.From, Idx: 1 - f.Edge.Idx}
+			reach := an.ReachBlocks([]*ssa.BasicBlock{other.To()}, nil, nil)
+			if reach[st.Call.Block()] {
+				continue
+			}
+			bad, unres := false, false
+			for ev := range returnEventsFrom(w, st.Fn, reach) {
+				if ev == "?" {
+					unres = true
+				} else if ev != evSucceeded && !(ev == "NEXT" && allowNext) {
+					bad = true
+				}
+			}
+			for _, r := range an.Returns(st.Fn) {
+				if !reach[r.Block()] {
+					continue
+				}
+				for _, rv := range r.Results {
+					if an.IsErrorType(rv.Type()) && !an.IsNilConst(rv) && !c07OnlyNil(w, rv) {
+						bad = true
+					}
+				}
+			}
+			if bad {
+				continue
+			}
+			if unres {
+				res.opaque = "the already-done branch of the guard on " + fld + " in " + w.FuncName(st.Fn) + " returns an event that cannot be resolved"
+				continue
+			}
+			res.field = fld
+			res.impure, res.impureAfter = nil, nil
+			// purity of the already-done path: the guard's function with the zero
+			// edges removed, and everything the callers above run before the call
+			res.impure = append(res.impure, impureCallsIn(w, st.Fn, c07DoneRegion(w, st.Fn, fld))...)
+			for j := 0; j < k; j++ {
+				before, after := c07BeforeAfter(ch[j].Call)
+				res.impure = append(res.impure, impureCallsIn(w, ch[j].Fn, before)...)
+				for _, x := range c07ImpureExcept(w, ch[j].Fn, after, ch[j].Call) {
+					res.impureAfter = append(res.impureAfter, x)
+				}
+			}
+		}
+		if res.field != "" {
+			return res
+		}
+	}
+	if only != "" && res.opaque == "" {
+		// a dominating condition that talks about the field in a form that is not
+		// understood: do not claim the guard is missing
+		short := only[strings.LastIndex(only, ".")+1:]
+		for _, f := range res.facts {
+			if strings.Contains(f.String(), short) && c07ZeroFactField(w, f) == "" && !c07NonZeroFact(w, f, only) {
+				res.opaque = "a condition that dominates the call mentions " + only + " in a form the rule does not interpret: " + f.String()
+			}
+		}
+	}
+	return res
+}
+
+// c07NonZeroFact: f says that field is NOT zero (the interpreted opposite of a guard).
+func c07NonZeroFact(w *an.World, f an.Fact, field string) bool {
+	if !f.NonNum || f.Rel != "!=" {
+		return false
+	}
+	g := f
+	g.Rel = "=="
+	return c07ZeroFactField(w, g) == field
+}
+
+// c07OnlyNil: an error value that can only be nil (named result never assigned).
+func c07OnlyNil(w *an.World, v ssa.Value) bool {
+	src := w.Sources(v, an.FlowOpts{})
+	return len(src.Leaves) > 0 && src.OnlyFrom(func(s an.Src) bool { return s.Kind == "zero" && s.Name == "nil" })
+}
+
+// c07BeforeAfter: blocks from which call's block is reachable without having
+// executed it (strictly before) / blocks reachable after it.
+func c07BeforeAfter(call ssa.CallInstruction) (before, after map[*ssa.BasicBlock]bool) {
+	fn := call.Parent()
+	after = an.ReachFromInstr(call)
+	before = map[*ssa.BasicBlock]bool{}
+	// backward reachability from the call's block
+	work := []*ssa.BasicBlock{call.Block()}
+	seen := map[*ssa.BasicBlock]bool{call.Block(): true}
+	for len(work) > 0 {
+		b := work[len(work)-1]
+		work = work[:len(work)-1]
+		for _, p := range b.Preds {
+			if !seen[p] {
+				seen[p] = true
+				work = append(work, p)
+			}
+		}
+	}
+	for _, b := range fn.Blocks {
+		if seen[b] && b != call.Block() {
+			before[b] = true
+		}
+	}
+	return before, after
+}
+
+// c07ImpureExcept lists outside-service calls in region other than `except`.
+func c07ImpureExcept(w *an.World, fn *ssa.Function, region map[*ssa.BasicBlock]bool, except ssa.CallInstruction) []string {
+	r2 := map[*ssa.BasicBlock]bool{}
+	for b := range region {
+		if b != except.Block() {
+			r2[b] = true
+		}
+	}
+	return impureCallsIn(w, fn, r2)
+}
+
+// c07FnStores: g, or a function it reaches synchronously, stores field fld.
+func c07FnStores(w *an.World, g *ssa.Function, fld string) bool {
+	if g == nil || g.Blocks == nil {
+		return false
+	}
+	if len(storesTo(g, fld)) > 0 {
+		return true
+	}
+	for _, ef := range w.Summary(g).Effects {
+		if ef.Info.Static != nil && w.InModule(ef.Info.Static) && ef.Info.Static.Blocks != nil && len(storesTo(ef.Info.Static, fld)) > 0 {
+			return true
+		}
+	}
+	return false
+}
+
+// c07ZeroGuardField returns "SwapData.X" when fact f says that persisted field
+// X of SwapData holds its zero value ("" / nil).
+func c07ZeroGuardField(f an.Fact) string {
+	if !f.NonNum || f.Rel != "==" {
+		return ""
+	}
+	for _, pair := range [][2]string{{f.L, f.R}, {f.R, f.L}} {
+		if (pair[1] == `""` || pair[1] == "nil") && strings.HasPrefix(pair[0], "field:SwapData.") && !strings.Contains(pair[0], ">") {
+			return strings.TrimPrefix(pair[0], "field:")
+		}
+	}
+	return ""
+}
+
+// c07ZeroFactField is c07ZeroGuardField extended to predicate helpers: the fact
+// `p(swap) is true/false` where the in-module function p returns that value only
+// when SwapData.X is zero.
+func c07ZeroFactField(w *an.World, f an.Fact) string {
+	if fld := c07ZeroGuardField(f); fld != "" {
+		return fld
+	}
+	// `swap.GetX() == ""` where the in-module getter returns the field itself
+	if f.NonNum && f.Rel == "==" {
+		for _, pair := range [][2]ssa.Value{{f.LV, f.RV}, {f.RV, f.LV}} {
+			if pair[0] == nil || pair[1] == nil {
+				continue
+			}
+			zero := an.IsNilConst(pair[1])
+			if s, ok := an.ConstString(pair[1]); ok && s == "" {
+				zero = true
+			}
+			if !zero {
+				continue
+			}
+			if fld := c07GetterField(w, pair[0]); fld != "" {
+				return fld
+			}
+		}
+	}
+	if f.Rel != "true" && f.Rel != "false" {
+		return ""
+	}
+	call, ok := f.Cond.(*ssa.Call)
+	if !ok {
+		return ""
+	}
+	g := call.Common().StaticCallee()
+	if g == nil || !w.InModule(g) || g.Blocks == nil {
+		return ""
+	}
+	return c07PredZeroField(w, g, f.Rel == "true")
+}
+
+// c07GetterField: v is the result of an in-module getter whose every return is
+// the SwapData field X of its receiver/argument: "SwapData.X".
+func c07GetterField(w *an.World, v ssa.Value) string {
+	for {
+		switch x := v.(type) {
+		case *ssa.ChangeType:
+			v = x.X
+			continue
+		case *ssa.Convert:
+			v = x.X
+			continue
+		}
+		break
+	}
+	call, ok := v.(*ssa.Call)
+	if !ok {
+		return ""
+	}
+	g := call.Common().StaticCallee()
+	if g == nil || !w.InModule(g) || g.Blocks == nil || g.Signature.Results().Len() != 1 {
+		return ""
+	}
+	field := ""
+	for _, r := range an.Returns(g) {
+		if len(r.Results) != 1 {
+			return ""
+		}
+		t := w.Term(r.Results[0])
+		if !strings.HasPrefix(t, "field:SwapData.") || strings.Contains(t, ">") || (field != "" && field != t) {
+			return ""
+		}
+		field = t
+	}
+	return strings.TrimPrefix(field, "field:")
+}
+
+// c07PredZeroField: field X such that every return of g that may yield `want`
+// happens only when SwapData.X is zero; "" if there is no such field.
+func c07PredZeroField(w *an.World, g *ssa.Function, want bool) string {
+	res := g.Signature.Results()
+	if res.Len() != 1 {
+		return ""
+	}
+	if b, ok := res.At(0).Type().Underlying().(*types.Basic); !ok || b.Info()&types.IsBoolean == 0 {
+		return ""
+	}
+	field := ""
+	okAll := true
+	note := func(fld string) {
+		if fld == "" || (field != "" && field != fld) {
+			okAll = false
+			return
+		}
+		field = fld
+	}
+	var eval func(v ssa.Value, blk *ssa.BasicBlock, edge []an.Fact, depth int)
+	eval = func(v ssa.Value, blk *ssa.BasicBlock, edge []an.Fact, depth int) {
+		if depth > 6 {
+			okAll = false
+			return
+		}
+		switch x := v.(type) {
+		case *ssa.Const:
+			if x.Value == nil || x.Value.Kind() != constant.Bool {
+				okAll = false
+				return
+			}
+			if constant.BoolVal(x.Value) != want {
+				return
+			}
+			fld := ""
+			for _, f := range append(append([]an.Fact{}, w.FactsDominatingBlock(blk)...), edge...) {
+				if z := c07ZeroGuardField(f); z != "" {
+					fld = z
+				}
+			}
+			note(fld)
+		case *ssa.BinOp:
+			// (X == zero) yields `want` only when X is zero iff the comparison's
+			// polarity equals want
+			fld, isEq := c07ZeroCompare(w, x)
+			if fld == "" || isEq != want {
+				okAll = false
+				return
+			}
+			note(fld)
+		case *ssa.UnOp:
+			if x.Op == token.NOT {
+				// !(inner): want from inner == !want
+				sub := c07PredValueZero(w, x.X, !want)
+				note(sub)
+				return
+			}
+			okAll = false
+		case *ssa.Phi:
+			for i, e := range x.Edges {
+				pred := x.Block().Preds[i]
+				var ef []an.Fact
+				for _, f := range w.Facts(g) {
+					if f.Edge.From == pred && f.Edge.To() == x.Block() {
+						ef = append(ef, f)
+					}
+				}
+				eval(e, pred, ef, depth+1)
+			}
+		default:
+			okAll = false
+		}
+	}
+	for _, r := range an.Returns(g) {
+		if len(r.Results) != 1 {
+			return ""
+		}
+		eval(r.Results[0], r.Block(), nil, 0)
+	}
+	if !okAll {
+		return ""
+	}
+	return field
+}
+
+// c07PredValueZero: for a comparison value, the field that is zero whenever the
+// value equals want.
+func c07PredValueZero(w *an.World, v ssa.Value, want bool) string {
+	bo, ok := v.(*ssa.BinOp)
+	if !ok {
+		return ""
+	}
+	fld, isEq := c07ZeroCompare(w, bo)
+	if fld == "" || isEq != want {
+		return ""
+	}
+	return fld
+}
+
+// c07ZeroCompare recognises `swap.X == ""` / `swap.X != nil` …; isEq tells
+// whether the comparison is true when X is zero.
+func c07ZeroCompare(w *an.World, bo *ssa.BinOp) (field string, isEq bool) {
+	if bo.Op != token.EQL && bo.Op != token.NEQ {
+		return "", false
+	}
+	for _, pair := range [][2]ssa.Value{{bo.X, bo.Y}, {bo.Y, bo.X}} {
+		zero := an.IsNilConst(pair[1])
+		if s, ok := an.ConstString(pair[1]); ok && s == "" {
+			zero = true
+		}
+		if !zero {
+			continue
+		}
+		t := w.Term(pair[0])
+		if strings.HasPrefix(t, "field:SwapData.") && !strings.Contains(t, ">") {
+			return strings.TrimPrefix(t, "field:"), bo.Op == token.EQL
+		}
+	}
+	return "", false
+}
+
+// c07DoneRegion: the blocks of fn that can execute while field is already set
+// (every edge that carries the fact `field is zero`, directly or through a
+// predicate helper, removed).
+func c07DoneRegion(w *an.World, fn *ssa.Function, field string) map[*ssa.BasicBlock]bool {
+	if len(fn.Blocks) == 0 {
+		return nil
+	}
+	cut := cutEdges(w, fn, func(f an.Fact) bool { return c07ZeroFactField(w, f) == field })
+	return an.ReachBlocks([]*ssa.BasicBlock{fn.Blocks[0]}, cut, nil)
+}
+
+// ---- call index and call chains ------------------------------------------------------
+
+// c07CallIdx: production call sites per static callee; a closure passed as an
+// argument counts as called by the call it is passed to (as in an.Summary).
+type c07CallIdx struct {
+	sites map[*ssa.Function][]ssa.CallInstruction
+}
+
+var c07IdxCache sync.Map // *an.World -> *c07CallIdx
+
+func c07BuildCallIdx(w *an.World) *c07CallIdx {
+	if v, ok := c07IdxCache.Load(w); ok {
+		return v.(*c07CallIdx)
+	}
+	idx := &c07CallIdx{sites: map[*ssa.Function][]ssa.CallInstruction{}}
+	defer c07IdxCache.Store(w, idx)
+	for _, fn := range prodFuncs(w) {
+		if isDummy(w, fn) {
+			continue
+		}
+		for _, call := range an.Calls(fn) {
+			for _, g := range c07Callees(w, call) {
+				idx.sites[g] = append(idx.sites[g], call)
+			}
+		}
+	}
+	return idx
+}
+
+// c07Callees: the in-module functions a call runs synchronously (its static
+// callee and closures passed to it).
+func c07Callees(w *an.World, call ssa.CallInstruction) []*ssa.Function {
+	var out []*ssa.Function
+	if g := call.Common().StaticCallee(); g != nil && w.InModule(g) && g.Blocks != nil {
+		out = append(out, g)
+	}
+	for _, a := range call.Common().Args {
+		if mc, ok := a.(*ssa.MakeClosure); ok {
+			if g, ok := mc.Fn.(*ssa.Function); ok && g.Blocks != nil {
+				out = append(out, g)
+			}
+		}
+	}
+	return out
+}
+
+// c07Step is one call of a chain: Call is an instruction of Fn.
+type c07Step struct {
+	Fn   *ssa.Function
+	Call ssa.CallInstruction
+}
+
+// c07Chains returns the static call chains root -> … -> site (depth <= 6): each
+// chain lists the call made in root, the call made in its callee, …, and ends
+// with site itself. `go` statements are followed only when followGo is set.
+func c07Chains(w *an.World, idx *c07CallIdx, root *ssa.Function, site ssa.CallInstruction, followGo bool) [][]c07Step {
+	target := site.Parent()
+	// functions from which target is reachable
+	canReach := map[*ssa.Function]bool{target: true}
+	frontier := []*ssa.Function{target}
+	for d := 0; d < 6 && len(frontier) > 0; d++ {
+		var next []*ssa.Function
+		for _, f := range frontier {
+			for _, s := range idx.sites[f] {
+				if p := s.Parent(); !canReach[p] {
+					canReach[p] = true
+					next = append(next, p)
+				}
+			}
+		}
+		frontier = next
+	}
+	var out [][]c07Step
+	onPath := map[*ssa.Function]bool{}
+	var rec func(f *ssa.Function, path []c07Step)
+	rec = func(f *ssa.Function, path []c07Step) {
+		if len(out) >= 24 {
+			return
+		}
+		if f == target {
+			out = append(out, append(append([]c07Step{}, path...), c07Step{f, site}))
+			return
+		}
+		if len(path) >= 6 {
+			return
+		}
+		onPath[f] = true
+		for _, call := range an.Calls(f) {
+			if _, isGo := call.(*ssa.Go); isGo && !followGo {
+				continue
+			}
+			for _, g := range c07Callees(w, call) {
+				if canReach[g] && !onPath[g] {
+					rec(g, append(path, c07Step{f, call}))
+				}
+			}
+		}
+		onPath[f] = false
+	}
+	if canReach[root] {
+		rec(root, nil)
+	}
+	return out
+}
+
+// ==== shared-end ====
